@@ -76,6 +76,67 @@ type chainWalker struct {
 	doc    *gast.QueryDocument
 	occ    map[string][]condChain
 	seen   map[string]bool
+	// meta: level and parent kind of a response position (filled for NarrowedAtAncestorAndNotBelowAbstractParent)
+	meta map[string]posMeta
+}
+
+type posMeta struct {
+	level          int
+	abstractParent bool
+}
+
+// NarrowedAtAncestorAndNotBelowAbstractParent is an INPUT fact (operation + schema only).
+//
+// It reports whether some response position whose PARENT object has an abstract static type
+// (interface / union) is selected by two field occurrences of which one is narrowed by a fragment at
+// an ANCESTOR level of the path that the other one does not narrow (or narrows less), e.g.
+//
+//	products { relNode { ... on Product { relOwner { relNode { id } } } }  relNode { relOwner { relNode { label id } } } }
+//
+// (`id` below the inner relNode: Node is due always, and also selected under "outer relNode is a
+// Product"). On the client operation the two chains combine (one implies the other), so
+// IncomparableTypeConditionChains is false; but when the planner's abstract-selection rewrite splits the
+// unnarrowed selection into one fragment per concrete type (needed when a sibling field such as `label`
+// lives in another subgraph for some types), the occurrences become "own type is User" / "own type is
+// Product" / "ancestor is Product", whose disjunction is not one conjunction any more — the root cause
+// listed as C01-F6.
+func NarrowedAtAncestorAndNotBelowAbstractParent(schema *gast.Schema, doc *gast.QueryDocument, op *gast.OperationDefinition) bool {
+	w := &chainWalker{schema: schema, doc: doc, occ: map[string][]condChain{}, seen: map[string]bool{}, meta: map[string]posMeta{}}
+	root := schema.Query
+	switch op.Operation {
+	case gast.Mutation:
+		root = schema.Mutation
+	case gast.Subscription:
+		root = schema.Subscription
+	}
+	if root == nil {
+		return false
+	}
+	w.walk(op.SelectionSet, root, w.possible(root), "", nil, 0, 0)
+	for pk, all := range w.occ {
+		m := w.meta[pk]
+		if !m.abstractParent {
+			continue
+		}
+		for i := range all {
+			for j := range all {
+				if i == j {
+					continue
+				}
+				// all[i] narrows an ancestor level more than all[j] does
+				for _, li := range all[i] {
+					if li.Level >= m.level {
+						continue
+					}
+					lj, ok := layerAt(all[j], li.Level)
+					if !ok || (subset(li.Types, lj.Types) && !sameSet(li.Types, lj.Types)) {
+						return true
+					}
+				}
+			}
+		}
+	}
+	return false
 }
 
 func (w *chainWalker) possible(def *gast.Definition) map[string]bool {
@@ -162,6 +223,9 @@ func (w *chainWalker) walk(sels gast.SelectionSet, static *gast.Definition, cur 
 			if !w.seen[id] {
 				w.seen[id] = true
 				w.occ[pk] = append(w.occ[pk], mine)
+			}
+			if w.meta != nil {
+				w.meta[pk] = posMeta{level: level, abstractParent: static != nil && (static.Kind == gast.Interface || static.Kind == gast.Union)}
 			}
 			if len(s.SelectionSet) > 0 && s.Definition != nil {
 				if td := w.schema.Types[s.Definition.Type.Name()]; td != nil {
